@@ -3,6 +3,7 @@
 -/
 import ErgoProofs.Lemmas.ReachInv
 import ErgoProofs.Lemmas.Ready
+import ErgoProofs.Lemmas.DiskInv
 namespace Ergo
 
 /-- ready ⇔ todo, unclaimed, every task it depends on is done/canceled (or gone), every epic its epic depends on has only
@@ -56,5 +57,12 @@ theorem C08_order_independent (g g' : Graph) (hwf : WF g) (ht : g.tasks.Perm g'.
 /-- every reachable store has unique ids, so the theorems above apply to it -/
 theorem C08_applies_to_reachable (log : List Event) (h : ReachOK log) : ∃ g, replay log = .ok g ∧ WF g := by
   obtain ⟨g, hr, hinv⟩ := reach_replay log h; exact ⟨g, hr, hinv.ok.wf⟩
+
+/-- and so does what is **on disk**: after any command history the bytes of the store read back (real line format) to a log whose graph has
+    unique ids — `ready_iff`, `ready_list_exact`, `claim_takes_oldest` speak about the file the next command will read -/
+theorem C08_applies_to_the_bytes_on_disk {limit : Nat} {log : List Event} {f : Storage.Bytes} (h : Codec.DiskReach limit log f) :
+    ∃ g, Storage.readEvents Codec.classifyLine limit f = .ok log ∧ replay log = .ok g ∧ WF g := by
+  obtain ⟨g, hf, hr, hinv⟩ := Codec.disk_allInv h
+  exact ⟨g, hf, hr, hinv.ok.wf⟩
 
 end Ergo
